@@ -21,20 +21,13 @@ from .. import roles
 from ..model import AnalysisError, Unknown, dotted, src
 from .c12 import parents
 
-TECHNIQUE = "queue-discipline usage classification, key-mirror table check, publish-after-initialise ordering, a path rule on the non-blocking receive, and abstract interpretation of the registry methods over enumerated rendezvous histories by the checker's own AST interpreter (static analysis)"
-ENGINES = ["model", "flow", "circuit"]
+TECHNIQUE = "abstract execution: ThreadSocket objects built by their constructors against the module-level hub, decorated wrappers, callbacks, rendezvous and receive histories at the code's own yield points - driven by the checker's AST interpreter (nothing imported or run by Python); generic truthiness / memo / shadow lints (static analysis)"
+ENGINES = ["model", "circuit"]
 EXPLANATION = (
-    "Over thread_socket/socket_hub.py and socket.py: every use of _messages is classified (append at the tail by send under the "
-    "receiver's key, pop(0) by recv under the socket's own key, len); key and remote_key are mirror tuples (names swapped, same id); "
-    "send looks the callback up and queues under remote_key, recv and callback registration use key; in recv the `raise` for an empty "
-    "queue with block=False is reached from the emptiness test without passing a sleep call or a loop back edge, and the returned "
-    "message is the one popped from the head; in connect the callbacks are registered before the key is added to _open_sockets."
-    " C18.R: the registry methods are executed by the checker's interpreter on a hub built from __init__ with two modelled sockets, the peer acting inside the waiting side's sleep (connect, or connect and disconnect), for either side first, with and without callbacks and timeout: connect returns exactly when the peer has been there, times out or keeps waiting otherwise, is_connected holds exactly while both are open, the peer's connection-lost callback runs once, and the tables are empty after both have left."
-    " Whole-queue operations on _messages (clear, re-assignment, sort, del) are violations wherever they occur. C18.W: the receive wrappers reach hub.recv under no condition on the socket's own state. C18.Z: no truthiness test on an int-typed value."
+    "Over thread_socket/socket_hub.py and socket.py, everything by abstract execution (checker's interpreter, nothing imported): ThreadSocket objects are built by their own constructor, which connects through the hub object of the class attribute; the second endpoint is constructed while the first sleeps in its rendezvous loop; the decorated send / recv wrappers are called as decorated. 27 socket histories: what each wrapper sends is what the peer's matching receive returns, once, in order, per direction and socket id (C18.K); callback sockets get each message through their callback exactly once and nothing is queued for them; every send wrapper raises ConnectionError and hands nothing over once the peer or the socket itself has disconnected, a message sent the moment a key appears in the registry reaches the callback - for ThreadSocket and every subclass with callbacks of its own (C18.I); a message sent before the sender disconnected is still received (C18.W); FIFO per receiver and a message queued during the rendezvous stays queued (C18.Q). C18.R: 60 rendezvous histories on the hub (either side first, the peer arriving at sleep 1 / 2 / never, staying or leaving again, callbacks on / off, timeout or not). C18.E: receive histories (non-blocking on empty and filled queues, arrival during a sleep, timeout). Lints: no truthiness test on an int-typed value (C18.Z), memo keys (C18.K), shadowed type tests (C18.H)."
 )
 LEVEL_TEXT = (
-    "Static analysis, structure only: necessary shape conditions (FIFO, key roles, non-blocking path, publish-after-init) at every "
-    "access site of the hub. Delivery exactly-once/in-order over all thread interleavings is NOT decided."
+    "Abstract execution of the socket classes and the hub over enumerated histories at the code's own yield points (sleep, the publication of a key). Not decided: interleavings at statement granularity inside the hub; the lock discipline."
 )
 LEVEL_NOTE = "lock discipline deliberately not armed (CPython list append/pop(0) are atomic); schedules are not explored"
 ASSUMPTIONS = [LEVEL_NOTE]
